@@ -317,6 +317,182 @@ theorem denied_proxy_blocks_third_party (H : HashFn) (s s' : Htlc) (c : Ctx) (ps
       rw [he]
       simp [Htlc.proxyAllowed, hl, lookup_put_self, hother]
 
+/-! ## QSR deposits (pillar and sentinel contracts) -/
+
+/-- DepositQsr adds the sent QSR to the sender's deposit and touches nobody else's -/
+theorem depositQsr_accumulates (d d' : Deposits) (c : Ctx) (h : depositQsr d c = some d') :
+    c.token = qsrTok ∧ 0 < c.amount ∧ depositOf d' c.sender = depositOf d c.sender + c.amount ∧
+      ∀ a, a ≠ c.sender → depositOf d' a = depositOf d a := by
+  unfold depositQsr at h
+  split at h
+  · cases h
+  · rename_i h1
+    simp only [Option.some.injEq] at h
+    subst h
+    refine ⟨Decidable.byContradiction fun hn => h1 (Or.inl hn), Nat.pos_of_ne_zero fun hn => h1 (Or.inr hn), ?_, ?_⟩
+    · simp [depositOf, lookup_put_self]
+    · intro a ha
+      simp [depositOf, lookup_put_ne ha]
+
+/-- T3 (QSR deposit): WithdrawQsr pays out only if the caller sent no amount and has a non-zero deposit; it pays exactly
+    that deposit, in QSR, to the depositor, and the deposit is deleted in the same step. -/
+theorem withdrawQsr_release_rule (d d' : Deposits) (c : Ctx) (ps : List Payout) (h : withdrawQsr d c = some (d', ps)) :
+    c.amount = 0 ∧ 0 < depositOf d c.sender ∧ ps = [⟨c.sender, qsrTok, depositOf d c.sender, false⟩] ∧
+      depositOf d' c.sender = 0 := by
+  obtain ⟨h1, h2, h3, h4, _⟩ := withdrawQsr_law h
+  refine ⟨h1, h2, h3, ?_⟩
+  subst h4
+  simp [depositOf, lookup_erase_self]
+
+/-- T4 (QSR deposit): after a successful WithdrawQsr the same account's next WithdrawQsr fails (until it deposits again). -/
+theorem withdrawQsr_never_twice (d d' : Deposits) (c c2 : Ctx) (ps : List Payout) (h : withdrawQsr d c = some (d', ps))
+    (hsame : c2.sender = c.sender) : withdrawQsr d' c2 = none := by
+  obtain ⟨_, _, _, hz⟩ := withdrawQsr_release_rule d d' c ps h
+  unfold withdrawQsr
+  split
+  · rfl
+  · rw [hsame, hz]; simp
+
+/-- a registration consumes no more than what the account has deposited -/
+theorem consumeQsr_within_deposit (d d' : Deposits) (owner : Addr) (required : Nat) (h : consumeQsr d owner required = some d') :
+    required ≤ depositOf d owner ∧ depositsTotal d' + required ≤ depositsTotal d :=
+  consumeQsr_law h
+
+/-! ## pillar -/
+
+/-- T1 (pillar, one receive), for call contexts with a non-zero frontier time: "every active pillar is recorded with
+    the collateral that Revoke pays" is preserved, and Σ pillar collateral ≤ ZNN balance, Σ QSR deposits ≤ QSR balance. -/
+theorem pillar_backed_step (P : Params) (op : PillarOp) (s : Pillar) (bal : Bal) (c : Ctx) (hnow : c.now ≠ 0)
+    (hI : PillarInv P s) (h : Backed pillarOwed s bal) :
+    PillarInv P (vmStep (op.method P) s bal c).st ∧
+    Backed pillarOwed (vmStep (op.method P) s bal c).st (vmStep (op.method P) s bal c).bal :=
+  vmStep_backedI (pillar_methodBackedI P op) c hnow hI h
+
+/-- T1 (pillar, all histories of Register / Revoke / UpdatePillar / Delegate / Undelegate / DepositQsr / WithdrawQsr) -/
+theorem pillar_backed (P : Params) (ops : List (PillarOp × Ctx)) (hnow : ∀ oc ∈ ops, oc.2.now ≠ 0) (s : Pillar) (bal : Bal)
+    (hI : PillarInv P s) (h : Backed pillarOwed s bal) :
+    PillarInv P (run (PillarOp.method P) (s, bal) ops).1 ∧
+    Backed pillarOwed (run (PillarOp.method P) (s, bal) ops).1 (run (PillarOp.method P) (s, bal) ops).2 :=
+  run_backedI (pillar_methodBackedI P) ops hnow (s, bal) hI h
+
+/-- the lock recorded by Register: exactly PillarStakeAmount of ZNN was sent, the name was free, the QSR cost of the
+    next pillar was taken from the sender's own deposit and is burned; the pillar is recorded active with the sender as
+    stake address and the frontier time as registration time. -/
+theorem registerPillar_records_lock (P : Params) (name : Hash) (producer reward : Addr) (pb pd : Nat) (ok : Bool)
+    (s s' : Pillar) (c : Ctx) (ps : List Payout)
+    (h : registerPillar P name producer reward pb pd ok s c = some (s', ps)) :
+    c.token = znnTok ∧ c.amount = P.pillarStakeAmount ∧ lookup name s.pillars = none ∧
+      pillarQsrCost P s ≤ depositOf s.deposits c.sender ∧
+      lookup name s'.pillars = some ⟨c.sender, P.pillarStakeAmount, c.now, 0, producer, reward, ZV.Gen.NormalPillarType, pb, pd⟩ ∧
+      ps = [⟨tokenContract, qsrTok, pillarQsrCost P s, true⟩] := by
+  obtain ⟨ht, ha, hn, d', hd, hs, hp⟩ := registerPillar_spec h
+  refine ⟨ht, ha, hn, (consumeQsr_law hd).1, ?_, hp⟩
+  subst hs
+  exact lookup_put_self _ _ _
+
+/-- T3 (pillar): Revoke pays out only if the caller sent no amount, the pillar exists and is active, the caller is its
+    stake address and the frontier time lies in the revoke window; it pays PillarStakeAmount in ZNN to the stake address
+    and records the pillar as revoked with amount 0. -/
+theorem revokePillar_release_rule (P : Params) (name : Hash) (ok : Bool) (s s' : Pillar) (c : Ctx) (ps : List Payout)
+    (h : revokePillar P name ok s c = some (s', ps)) :
+    ∃ p, lookup name s.pillars = some p ∧ c.amount = 0 ∧ p.revokeTime = 0 ∧ c.sender = p.stakeAddr ∧
+      revocable P.pillarLock P.pillarRevoke p.regTime c.now = true ∧
+      ps = [⟨p.stakeAddr, znnTok, P.pillarStakeAmount, false⟩] ∧
+      lookup name s'.pillars = some { p with revokeTime := c.now, amount := 0 } := by
+  obtain ⟨ha, p, hp, hr, ho, hw, hs, hps⟩ := revokePillar_spec h
+  refine ⟨p, hp, ha, hr, ho.symm, hw, hps, ?_⟩
+  subst hs
+  exact lookup_put_self _ _ _
+
+/-- under the invariant, the amount Revoke pays is the amount recorded for the pillar -/
+theorem revokePillar_pays_recorded (P : Params) (name : Hash) (ok : Bool) (s s' : Pillar) (c : Ctx) (ps : List Payout)
+    (hI : PillarInv P s) (h : revokePillar P name ok s c = some (s', ps)) :
+    ∃ p, lookup name s.pillars = some p ∧ ps = [⟨p.stakeAddr, znnTok, p.amount, false⟩] := by
+  obtain ⟨_, p, hp, hr, _, _, _, hps⟩ := revokePillar_spec h
+  exact ⟨p, hp, by rw [hps, hI (name, p) (mem_of_lookup hp) hr]⟩
+
+/-- the revoke window: with registration not in the future, a pillar or sentinel is revocable exactly when the time
+    since registration, modulo lock + window, has reached the lock time -/
+theorem revocable_iff_in_window (lock window reg now : Int) (h0 : reg ≤ now) :
+    revocable lock window reg now = true ↔ lock ≤ (now - reg) % (lock + window) := by
+  have : (now - reg).tmod (lock + window) = (now - reg) % (lock + window) :=
+    Int.tmod_eq_emod_of_nonneg (by omega)
+  simp [revocable, this]
+
+/-- T4 (pillar): after a successful Revoke at a non-zero frontier time, every later Revoke of that pillar fails. -/
+theorem revokePillar_never_twice (P : Params) (name : Hash) (ok ok2 : Bool) (s s' : Pillar) (c c2 : Ctx) (ps : List Payout)
+    (hnow : c.now ≠ 0) (h : revokePillar P name ok s c = some (s', ps)) :
+    revokePillar P name ok2 s' c2 = none := by
+  obtain ⟨p, _, _, _, _, _, _, hrec⟩ := revokePillar_release_rule P name ok s s' c ps h
+  unfold revokePillar
+  split
+  · rfl
+  · split
+    · rfl
+    · rw [hrec]; simp [hnow]
+
+/-- why the frontier time must be non-zero (it is: genesis is in 2001): a revocation stamped with time 0 leaves the
+    pillar "active" (`RevokeTime == 0`) and a second Revoke pays the collateral again -/
+theorem revokePillar_at_time_zero_pays_twice :
+    let P : Params := { Params.production with pillarLock := 0, pillarRevoke := 10 }
+    let s : Pillar := { pillars := [(1, ⟨16, P.pillarStakeAmount, 0, 0, 16, 16, 2, 0, 0⟩)] }
+    let c : Ctx := ⟨0, 1, 16, 0, zeroTok, 9⟩
+    ((revokePillar P 1 true s c).bind fun r => (revokePillar P 1 true r.1 c).map (·.2)) =
+      some [⟨16, znnTok, P.pillarStakeAmount, false⟩] := by
+  decide
+
+/-! ## sentinel -/
+
+/-- T1 (sentinel, one receive): Σ ZNN collateral ≤ ZNN balance and Σ QSR collateral + Σ QSR deposits ≤ QSR balance -/
+theorem sentinel_backed_step (P : Params) (op : SentinelOp) (s : Sentinel) (bal : Bal) (c : Ctx)
+    (h : Backed sentinelOwed s bal) :
+    Backed sentinelOwed (vmStep (op.method P) s bal c).st (vmStep (op.method P) s bal c).bal :=
+  vmStep_backed (sentinel_methodBacked P op) c h
+
+/-- T1 (sentinel, all histories of Register / Revoke / DepositQsr / WithdrawQsr) -/
+theorem sentinel_backed (P : Params) (ops : List (SentinelOp × Ctx)) (s : Sentinel) (bal : Bal)
+    (h : Backed sentinelOwed s bal) :
+    Backed sentinelOwed (run (SentinelOp.method P) (s, bal) ops).1 (run (SentinelOp.method P) (s, bal) ops).2 :=
+  run_backed (sentinel_methodBacked P) ops (s, bal) h
+
+/-- the lock recorded by sentinel Register: exactly SentinelZnnRegisterAmount ZNN sent, SentinelQsrDepositAmount taken
+    from the sender's own QSR deposit, no sentinel recorded for the sender before, nothing paid out -/
+theorem registerSentinel_records_lock (P : Params) (s s' : Sentinel) (c : Ctx) (ps : List Payout)
+    (h : registerSentinel P s c = some (s', ps)) :
+    c.token = znnTok ∧ c.amount = P.sentinelZnn ∧ lookup c.sender s.entries = none ∧
+      P.sentinelQsr ≤ depositOf s.deposits c.sender ∧
+      lookup c.sender s'.entries = some ⟨c.now, 0, P.sentinelZnn, P.sentinelQsr⟩ ∧ ps = [] := by
+  obtain ⟨ht, ha, hn, d', hd, hs, hp⟩ := registerSentinel_spec h
+  refine ⟨ht, ha, hn, (consumeQsr_law hd).1, ?_, hp⟩
+  subst hs
+  exact lookup_put_self _ _ _
+
+/-- T3 (sentinel): Revoke pays out only if the caller sent no amount, a sentinel is recorded for the caller, it has not
+    been revoked and the frontier time lies in the revoke window; it pays exactly the recorded ZNN and QSR amounts to
+    the owner and records both as 0 with the revoke time. -/
+theorem revokeSentinel_release_rule (P : Params) (s s' : Sentinel) (c : Ctx) (ps : List Payout)
+    (h : revokeSentinel P s c = some (s', ps)) :
+    ∃ e, lookup c.sender s.entries = some e ∧ c.amount = 0 ∧ e.revokeTime = 0 ∧
+      revocable P.sentinelLock P.sentinelRevoke e.regTime c.now = true ∧
+      ps = [⟨c.sender, znnTok, e.znn, false⟩, ⟨c.sender, qsrTok, e.qsr, false⟩] ∧
+      lookup c.sender s'.entries = some { e with revokeTime := c.now, znn := 0, qsr := 0 } := by
+  obtain ⟨ha, e, he, hr, hw, hs, hps⟩ := revokeSentinel_spec h
+  refine ⟨e, he, ha, hr, hw, hps, ?_⟩
+  subst hs
+  exact lookup_put_self _ _ _
+
+/-- T4 (sentinel): after a successful Revoke a later Revoke by the same owner pays nothing: it fails, or (only if the
+    first was stamped with time 0) pays 0 ZNN and 0 QSR. -/
+theorem revokeSentinel_never_twice (P : Params) (s s' s'' : Sentinel) (c c2 : Ctx) (ps ps2 : List Payout)
+    (h : revokeSentinel P s c = some (s', ps)) (hsame : c2.sender = c.sender)
+    (h2 : revokeSentinel P s' c2 = some (s'', ps2)) :
+    c.now = 0 ∧ ps2 = [⟨c.sender, znnTok, 0, false⟩, ⟨c.sender, qsrTok, 0, false⟩] := by
+  obtain ⟨e, _, _, _, _, _, hrec⟩ := revokeSentinel_release_rule P s s' c ps h
+  obtain ⟨e2, he2, _, hr2, _, hp2, _⟩ := revokeSentinel_release_rule P s' s'' c2 ps2 h2
+  rw [hsame, hrec] at he2
+  cases he2
+  exact ⟨hr2, by rw [hp2, hsame]⟩
+
 /-! ## the hypotheses are satisfiable -/
 
 /-- a backed plasma state in which U(=16) owns a matured fusion: the cancel pays, a second cancel fails -/
@@ -348,6 +524,34 @@ example :
     reclaimHtlc 5 s ⟨990, 9, 16, 0, zeroTok, 77⟩ = none ∧
     (reclaimHtlc 5 s ⟨1000, 9, 16, 0, zeroTok, 77⟩).map (·.2) = some [⟨16, znnTok, 5, false⟩] ∧
     reclaimHtlc 5 s ⟨1000, 9, 17, 0, zeroTok, 77⟩ = none := by
+  decide
+
+/-- pillar: 16 deposits the cost, registers, and can revoke only inside the window (lock 100, window 50) -/
+example :
+    let P : Params := { Params.production with pillarStakeAmount := 15, pillarQsrBase := 150, pillarQsrIncrease := 10,
+                                               pillarLock := 100, pillarRevoke := 50 }
+    let s0 : Pillar := {}
+    let r1 := vmStep pillarDeposit s0 [] ⟨1000, 1, 16, 150, qsrTok, 1⟩
+    let r2 := vmStep (registerPillar P 7 20 16 0 100 true) r1.st r1.bal ⟨1010, 2, 16, 15, znnTok, 2⟩
+    let early := vmStep (revokePillar P 7 true) r2.st r2.bal ⟨1100, 3, 16, 0, zeroTok, 3⟩
+    let r3 := vmStep (revokePillar P 7 true) r2.st r2.bal ⟨1110, 4, 16, 0, zeroTok, 4⟩
+    let again := vmStep (revokePillar P 7 true) r3.st r3.bal ⟨1120, 5, 16, 0, zeroTok, 5⟩
+    PillarInv P s0 ∧ Backed pillarOwed s0 [] ∧
+    r1.status = 1 ∧ r2.status = 1 ∧ r2.descs = [⟨tokenContract, qsrTok, 150, true⟩] ∧
+    early.status = 2 ∧ r3.status = 1 ∧ r3.descs = [⟨16, znnTok, 15, false⟩] ∧ again.status = 2 := by
+  refine ⟨?_, ?_, by decide, by decide, by decide, by decide, by decide, by decide, by decide⟩
+  · intro x hx; simp at hx
+  · intro tok _; simp [pillarOwed, total, depositsTotal]
+
+/-- sentinel: deposit, register, revoke inside the window pays both collaterals back -/
+example :
+    let P : Params := { Params.production with sentinelZnn := 5, sentinelQsr := 50, sentinelLock := 100, sentinelRevoke := 50 }
+    let r1 := vmStep sentinelDeposit ({} : Sentinel) [] ⟨1000, 1, 16, 60, qsrTok, 1⟩
+    let r2 := vmStep (registerSentinel P) r1.st r1.bal ⟨1010, 2, 16, 5, znnTok, 2⟩
+    let r3 := vmStep (revokeSentinel P) r2.st r2.bal ⟨1110, 3, 16, 0, zeroTok, 3⟩
+    let r4 := vmStep sentinelWithdraw r3.st r3.bal ⟨1120, 4, 16, 0, zeroTok, 4⟩
+    r2.status = 1 ∧ r3.descs = [⟨16, znnTok, 5, false⟩, ⟨16, qsrTok, 50, false⟩] ∧
+    r4.descs = [⟨16, qsrTok, 10, false⟩] ∧ r4.bal.get qsrTok = 0 ∧ r4.bal.get znnTok = 0 := by
   decide
 
 end ZV.C10
